@@ -600,7 +600,8 @@ def oracle_factory(t, r):
     id_ = unq(t.s())
     w = r.s()
     if w == "missing":
-        return f"[missing-id] the factory `{f}` has no object `{id_}`"
+        # get() of an id that was never registered returns null; the generator names such ids `no-such-…`
+        return None if id_.startswith("no-such-") and r.done() else f"[missing-id] the factory `{f}` has no object `{id_}`"
     ty = unq(w)
     if ty != id_:
         return f"[type-id] `{f}`/`{id_}` reports type_id `{ty}`"
@@ -675,8 +676,18 @@ def S(s):
     return "ss " + q(s)
 
 
+_ALPHA = {}
+
+
 def alphabet(spec):
     """(full alphabet, core alphabet) of op texts for a spec"""
+    w = spec.wire()
+    if w not in _ALPHA:
+        _ALPHA[w] = alphabet_(spec)
+    return _ALPHA[w]
+
+
+def alphabet_(spec):
     k = spec.kind
     if k == "int":
         mn, mx = spec.min, spec.max
